@@ -346,6 +346,61 @@ Section Generic.
       + simpl. now rewrite Len.
   Qed.
 
+  (** ** unstable variant: sortedness of the concatenated output *)
+  Definition seqmerge_unstable_sorted_spec : Prop :=
+    forall sent cs, Forall (fun l => sorted l) cs ->
+      Permutation (fst (seqmerge false sent cs (length (concat cs)))) (concat cs) /\
+      sorted (fst (seqmerge false sent cs (length (concat cs)))).
+
+  Lemma sorted_app (l1 : list A) : forall l2, sorted l1 -> sorted l2 ->
+    (forall x y, In x l1 -> In y l2 -> ltb y x = false) -> sorted (l1 ++ l2).
+  Proof.
+    induction l1 as [|a l1 IH]; intros l2 H1 H2 HX; [exact H2|].
+    simpl. inversion H1 as [|? ? S1 Hd]; subst. constructor.
+    - apply IH; auto. intros x y Hx Hy. apply HX; [now right|assumption].
+    - destruct l1 as [|c l1]; simpl.
+      + destruct l2 as [|y l2]; constructor. unfold sorted_rel. apply HX; now left.
+      + constructor. now inversion Hd.
+  Qed.
+
+  Theorem run_threads_unstable_sorted (seqs : list (list A)) size :
+    Forall (fun l => sorted l) seqs -> seqmerge_unstable_sorted_spec ->
+    forall rest b ts, good seqs b -> chain seqs b rest -> sum (last rest b) <= size ->
+    run_threads false seqs size (b :: rest) = Some ts -> sorted (output ts).
+  Proof.
+    intros Hsorted Hspec.
+    assert (Hfull : seqmerge_unstable_full_spec) by (intros sent cs Hcs; apply (Hspec sent cs Hcs)).
+    induction rest as [|b' rest IH]; intros b ts G H Hsz R.
+    - simpl in R. injection R as <-. constructor.
+    - destruct H as (H1 & G' & H3). pose proof G as (Gl & Gle & GS). pose proof G' as (Gl' & Gle' & GS').
+      assert (E : last (b' :: rest) b = last rest b') by apply last_cons2.
+      rewrite E in *.
+      destruct (chain_last_ge seqs rest b' Gl' H3) as (L1 & L2 & L3).
+      destruct (run_threads_unstable_partial seqs size Hsorted Hfull rest b' G' H3 Hsz) as (ts' & R' & C' & O' & _).
+      assert (Sbb' : sum b <= sum b') by (apply all_le_sum; [congruence|assumption]).
+      assert (Sb'l : sum b' <= sum (last rest b')) by (apply all_le_sum; [congruence|assumption]).
+      pose (n := Nat.min (sum b' - sum b) (size - sum b)).
+      assert (Hn : n = length (concat (chunk seqs b b'))) by (rewrite chunk_total; auto; unfold n; lia).
+      assert (TR : thread_run false seqs size b b' =
+                   Some {| tpos := sum b; tlen := n; tout := fst (seqmerge false false (chunk seqs b b') n) |}).
+      { unfold PMWM.thread_run. rewrite H1. simpl.
+        assert (size <? sum b = false) as -> by (apply Nat.ltb_ge; lia). reflexivity. }
+      change (run_threads false seqs size (b :: b' :: rest)) with
+          (match thread_run false seqs size b b', run_threads false seqs size (b' :: rest) with
+           | Some t, Some ts => Some (t :: ts) | _, _ => None end) in R.
+      rewrite TR, R' in R. injection R as <-.
+      destruct (Hspec false (chunk seqs b b') (sorted_chunk seqs b b' Hsorted)) as [TP TS].
+      rewrite <- Hn in TP, TS.
+      unfold output. simpl. apply sorted_app.
+      + exact TS.
+      + apply (IH b' ts' G' H3 Hsz R').
+      + intros x y Hx Hy.
+        apply (Permutation_in _ TP) in Hx. apply in_concat_chunk in Hx as [i Hi]. apply in_slice in Hi as [Hi _].
+        apply (Permutation_in _ O') in Hy. apply smerge_in in Hy. apply in_concat_chunk in Hy as [j Hj].
+        apply in_slice in Hj as [_ Hj].
+        exact (proj1 (GS' i j x y Hi Hj)).
+  Qed.
+
   (** ** exactly one writer per position *)
   Lemma writers_outside ts : forall from to pos, contiguous ts from to -> (pos < from \/ to <= pos) ->
     from <= to /\ writers ts pos = [].
